@@ -45,7 +45,7 @@ CHECKS = {
    "DESIGN.md 3.1"),
  "C15": chk("C15", "hostsim",
    "deterministic simulation: generated builder scripts run by the real runtime on the simulated host with injected spawn errors; reference model of the builder and of the documented limits; recorded spawn requests; a few cases cross-checked against the real OS (un-hooked binary + helper child reporting argv/env/cwd/stdin)",
-   "Seeded search over host policy / small limits / builder histories (variables, array slots, copies, functions, helpers mutating a captured builder with unused results, builders replaced by assignment, loops, adversarial strings) and two schedules each. Refused => the documented error and zero spawn attempts beyond the allowed ones; spawned => the recorded Command equals the model byte for byte and the child reads exactly the configured stdin.",
+   "Seeded search over host policy / small limits / builder histories (variables, array slots, copies, functions, helpers mutating a captured builder with unused results, builders replaced by assignment, loops, adversarial strings, standard-input texts of several pipe buffers up to the 1 MiB limit) and two schedules each. Refused => the documented error and zero spawn attempts beyond the allowed ones; spawned => the recorded Command equals the model byte for byte and the child reads exactly the configured stdin.",
    "std::process::Command is a recording stub: that the OS receives what std was given (no shell) is trusted. When a command is both forbidden and invalid either refusal is accepted. One real-OS scenario (bare program name through an overridden PATH, file without #!) is known finding K2 (known_findings.jsonl).",
    "DESIGN.md 3.2"),
  "C02": chk("C02", "memsim",
